@@ -333,10 +333,7 @@ fn fold(agg: &E, rows: &[&RowCtx]) -> Fold {
             exact(V::Text(parts.join(&delim)))
         }
         "array_agg" => {
-            if values.first().map(|v| v.is_null()).unwrap_or(true) {
-                // the element type is taken from the first value: NULL first is not fixed
-                return Fold::Unspec;
-            }
+            // "the argument's values in arrival order": NULLs included, also when a NULL arrives first
             if !non_null.windows(2).all(|w| w[0].type_name() == w[1].type_name()) {
                 return Fold::Unspec;
             }
